@@ -254,9 +254,20 @@ def identity_really_fails(got, exp, model, mod, seed, extra_points=8, const_valu
             for v in z3_vars(t):
                 names[v.decl().name()] = v
     points = [dict(model)] if model else []
+
+    def rand_pt():
+        return {n: (rnd.randrange(mod) if z3.is_int(v) else rnd.getrandbits(v.size() if z3.is_bv(v) else 1)) for n, v in names.items()}
     for _ in range(extra_points):
-        points.append({n: (rnd.randrange(mod) if z3.is_int(v) else rnd.getrandbits(v.size() if z3.is_bv(v) else 1))
-                       for n, v in names.items()})
+        points.append(rand_pt())
+    # structured points: one integer unknown at a time pinned to 0, 1, -1 (special-case branches such as Z = 0, Z = +-1 are
+    # measure-zero for random points)
+    ints = [n for n, v in names.items() if z3.is_int(v) and not (const_values and n in const_values)]
+    if len(ints) <= 16:
+        for n in ints:
+            for val in (0, 1, mod - 1):
+                pt = rand_pt()
+                pt[n] = val
+                points.append(pt)
     for pt in points:
         pt = dict(pt)
         if const_values:
